@@ -11,6 +11,7 @@ import (
 
 var commands = map[string]func([]string) error{
 	"store": cmdStore,
+	"smtp":  cmdSMTP,
 }
 
 func main() {
